@@ -110,8 +110,17 @@ static Base make_base(Case &c) {
 enum Dec { D_ST_CONCAT, D_ST_SINGLE, D_AUTO_CONCAT, D_MT_CONCAT, D_MT_FAILFAST, D_ST_BYTEWISE, D_N };
 static const char *dec_names[] = {"st+concat", "st", "auto+concat", "mt+concat", "mt+concat+failfast", "st+concat fed one byte at a time"};
 
+// "warm handles" (half of the cases, chosen by the last case byte): each decoder setting keeps ONE lzma_stream for the whole case and is
+// re-initialised on it for every damaged variant without lzma_end() in between, as a program decoding many files does - state that
+// is only reset when the coder is first allocated (and not on every initialisation) leaks from one file into the verdict on the next
+static bool g_warm = false;
+static lzma_stream g_pool[8]; static bool g_pool_used[8];
+static void end_warm_handles() { for (int i = 0; i < 8; ++i) if (g_pool_used[i]) { lzma_end(&g_pool[i]); g_pool_used[i] = false; } }
+
 static drv::Result decode(const Base &B, int dec, const uint8_t *p, size_t n) {
-	lzma_stream s = LZMA_STREAM_INIT; s.allocator = AL(); lzma_ret r; drv::Opts o; o.out_cap = 1u << 20;
+	lzma_stream local = LZMA_STREAM_INIT; lzma_stream *sp = &local;
+	if (g_warm) { sp = &g_pool[dec]; if (!g_pool_used[dec]) { lzma_stream z = LZMA_STREAM_INIT; *sp = z; g_pool_used[dec] = true; } }
+	lzma_stream &s = *sp; s.allocator = AL(); lzma_ret r; drv::Opts o; o.out_cap = 1u << 20;
 	uint32_t fl = (dec == D_ST_SINGLE) ? 0 : LZMA_CONCATENATED;
 	drv::Schedule sch; if (dec == D_ST_BYTEWISE) { sch.tail_in = 1; sch.tail_out = 1u << 20; }
 	if (dec == D_AUTO_CONCAT) r = lzma_auto_decoder(&s, UINT64_MAX, fl);
@@ -120,7 +129,7 @@ static drv::Result decode(const Base &B, int dec, const uint8_t *p, size_t n) {
 	else if (dec == D_MT_CONCAT || dec == D_MT_FAILFAST) { lzma_mt mt; memset(&mt, 0, sizeof mt); mt.threads = 2; mt.flags = fl | (dec == D_MT_FAILFAST ? LZMA_FAIL_FAST : 0); mt.memlimit_threading = UINT64_MAX; mt.memlimit_stop = UINT64_MAX; r = lzma_stream_decoder_mt(&s, &mt); o.idle_limit = 1u << 20; }
 	else r = lzma_stream_decoder(&s, UINT64_MAX, fl);
 	if (r != LZMA_OK) harness_bug("decoder init %d", (int)r);
-	drv::Result R = drv::run(&s, p, n, sch, o); lzma_end(&s); return R;
+	drv::Result R = drv::run(&s, p, n, sch, o); if (!g_warm) lzma_end(&s); return R;
 }
 
 struct Judge { const Base &B; uint64_t evals = 0, flips = 0, truncs = 0, success_same = 0, errors = 0; std::map<std::string, uint64_t> field_hits; };
@@ -184,6 +193,8 @@ extern "C" int LLVMFuzzerTestOneInput(const uint8_t *data, size_t size) {
 	begin_case("C05");
 	Case c(data, size);
 	Base B = make_base(c);
+	g_warm = size > 0 && (data[size - 1] & 1); if (g_warm) { B.desc.pop_back(); B.desc += ",\"warm_handles\":true}"; count("warm_handles"); }
+	struct EndWarm { ~EndWarm() { end_warm_handles(); } } end_warm_guard;
 	set_desc(B.desc);
 	Judge J{B};
 	// sanity: the undamaged file decodes to the plaintext with every decoder
